@@ -733,6 +733,31 @@ def annotate_closures(body, overrides, rel, base_line, log, n0=0, counter=None):
     return body
 
 
+def count_closures(body):
+    """(closures in argument position, those carrying a ghost `-> (o: T) ensures ..` annotation) in the emitted body.  A closure without
+    annotation is opaque to Verus: nothing is known about its result, so a failed obligation in that function is undecided."""
+    toks = rsscan.tokenize(body)
+    sig = rsscan.sig(toks)
+    total = ann = 0
+    p = 0
+    while p < len(sig):
+        t = toks[sig[p]]
+        prev = toks[sig[p - 1]] if p > 0 else None
+        if t[0] == 'punct' and t[1] in ('|', '||') and prev is not None and prev[0] == 'punct' and prev[1] in ('(', ','):
+            total += 1
+            q = p + 1
+            if t[1] == '|':
+                while q < len(sig) and not (toks[sig[q]][0] == 'punct' and toks[sig[q]][1] == '|'):
+                    q += 1
+                q += 1
+            if q < len(sig) and toks[sig[q]][1] == '->':
+                ann += 1
+            p = q
+            continue
+        p += 1
+    return total, ann
+
+
 def rename_calls(body, mapping, rel, base_line, log):
     """R9: rename call sites `name(` of a renamed free function (never after `.`, `::` or `fn`)"""
     toks = rsscan.tokenize(body)
@@ -1045,6 +1070,14 @@ class Assembler:
             head_clean, nsub = re.subn(pat, an, head_clean)
             if nsub:
                 self.rewrites.append({'rule': 'R19', 'where': '%s:%d' % (c.src, fn_line), 'text': '%s -> %s (alias declared in %s)' % (atext, an, arel)})
+        if re.search(r'[(,]\s*_\s*:', head_clean):
+            # R2b: a wildcard parameter `_: T` becomes a named, unused parameter `_pN: T` (the verus! macro wants identifiers)
+            cnt2 = [0]
+            def _nm(m):
+                cnt2[0] += 1
+                return '%s_p%d:' % (m.group(1), cnt2[0])
+            head_clean = re.sub(r'([(,]\s*)_\s*:', _nm, head_clean)
+            self.rewrites.append({'rule': 'R2b', 'where': '%s:%d' % (c.src, fn_line), 'text': '%d wildcard parameter(s) `_: T` -> `_pN: T`' % cnt2[0]})
         for pv, pty in c.instantiate.items():
             # R18 (explicit form): the generic parameter `<pv>: impl IntoIterator<..>` is instantiated at the type named by the contract
             # (the type its in-crate caller passes)
@@ -1230,8 +1263,10 @@ class Assembler:
             b = '{\n    let mut self_r16 = self;' + b[1:]
         for h in helpers:
             self.emit(h)
-        # header (methods are wrapped in their real impl header)
-        if it.ctx:
+        # header (methods are wrapped in their real impl header); inside an //@impl_open .. //@impl_close group the header, the
+        # associated types and the closing brace are emitted once by the group
+        grouped = bool(it.ctx) and getattr(self, 'group_ctx', None) is not None and norm(self.group_ctx) == norm(it.ctx)
+        if it.ctx and not grouped:
             for pre in c.hints.get('__before_impl__', '').split('\n'):
                 if pre.strip():
                     self.emit(pre)
@@ -1259,9 +1294,9 @@ class Assembler:
                           {'kind': 'clause', 'fn': key, 'clause': x.cid, 'tags': x.tags, 'ckind': kind,
                            'contract': '%s:%d' % (os.path.relpath(c.file, VERIF), x.line)})
         if imported:
-            self.emit('{ unimplemented!() }' + ('\n}' if it.ctx else '') + '\n')
+            self.emit('{ unimplemented!() }' + ('\n}' if (it.ctx and not grouped) else '') + '\n')
             return
-        body_first = self.emit(b + ('\n}' if it.ctx else '') + '\n', None)
+        body_first = self.emit(b + ('\n}' if (it.ctx and not grouped) else '') + '\n', None)
         body_last = len(self.lines)
         # register loop clause lines
         for ln in range(body_first, body_last + 1):
@@ -1284,8 +1319,10 @@ class Assembler:
             self.dropped.append({'item': 'fn ' + key, 'where': '%s:%d' % (c.src, fn_line), 'dropped_attrs': attrs_dropped})
         n_loops = len(find_loops(body))
         n_annotated = len([n for n, cls in c.loops.items() if any(x.kind == 'invariant' for x in cls)])
+        n_clos, n_clos_ann = count_closures(b)
         self.functions.append({'key': key, 'name': c.name, 'ctx': c.ctx, 'src': '%s:%d' % (c.src, fn_line),
                                'loops': n_loops, 'loops_with_invariant': n_annotated,
+                               'closures': n_clos, 'closures_annotated': n_clos_ann,
                                'clauses': [{'id': x.cid, 'tags': x.tags, 'kind': x.kind} for x in c.clauses] +
                                           [{'id': x.cid, 'tags': x.tags, 'kind': 'loop-' + x.kind} for cls in c.loops.values() for x in cls],
                                'safety_tags': c.safety_tags})
@@ -1389,6 +1426,23 @@ class Assembler:
                         raise
             elif d == 'import':
                 self.emit_fn(rest, True)
+            elif d == 'impl_open':
+                # //@impl_open <file> <ctx>: the methods of one trait impl must sit in one impl block: emit the real header and the
+                # associated type items once; the //@fn directives up to //@impl_close emit the methods without a wrapper
+                rel, want = rest.split(None, 1)
+                src_all, toks_all, items_all = load_src(rel)
+                cands = [x for x in items_all if x.kind == 'impl' and ctx_match(want, x.name)]
+                if len(cands) != 1:
+                    raise ExtractError('lost anchor: %d impl blocks match %r in %s (need exactly 1)' % (len(cands), want, rel))
+                blk = cands[0]
+                self.group_ctx = blk.name
+                self.emit(blk.name + ' {')
+                for other in items_all:
+                    if other.kind == 'type' and other.ctx == blk.name and blk.start <= other.start and other.end <= blk.end:
+                        self.emit('    ' + strip_docs_and_attrs(src_all[other.start:other.end]).strip())
+            elif d == 'impl_close':
+                self.group_ctx = None
+                self.emit('}\n')
             elif d == 'alias':
                 # //@alias <file> <Name>: the crate declares `type <Name> = <T>;` in <file>; a signature that spells out <T> is
                 # rewritten to say <Name> (R19; an identity under the real alias -- needed because <Name> is a stand-in type here)
